@@ -121,3 +121,34 @@ package state
 
 //@ type State
 //@   invariant wired [C13]: nonnil(self.instance) && self.storage != nil
+
+// ---- sessions --------------------------------------------------------------------------------------
+// A session exists only for a verified identity (State.AddRouter requires it; records loaded from the local
+// state file are trusted): its key is a 32 byte Ed25519 key. The router's own identity has a 64 byte private key
+// (AddressFromStorage / AddressFromKeyPair check both sizes).
+//@ type Session
+//@   invariant wired [C13]: self.state != nil && self.address != nil && len(self.address.PublicKey) == 32
+//@   invariant sessions [C13]: (self.signing != nil ==> self.signing.seqHandler != nil && len(self.signing.routerPrivKey) == 64 && len(self.signing.remotePubKey) == 32)
+
+//@ type SigningSession
+//@   invariant keys [C02,C13]: self.seqHandler != nil && len(self.routerPrivKey) == 64 && len(self.remotePubKey) == 32
+
+//@ func NewSigningSession
+//@   modifies nothing
+//@   requires len(routerPrivKey) == 64 && len(remotePubKey) == 32
+//@   ensures session: result != nil
+
+//@ func Session.Signing
+//@   modifies s.lock, s.signing
+//@   ensures signing [C02]: result != nil
+
+//@ func Session.Encryption
+//@   modifies s.lock, s.encryption
+//@   ensures encryption [C02]: result != nil
+
+//@ func NewEncryptionSession
+//@   modifies nothing
+//@   ensures session: result != nil && result.prioSeqHandler != nil && result.reglSeqHandler != nil
+
+//@ func TimeSequenceHandler.Next
+//@   modifies sh.out, sh.lock
